@@ -165,6 +165,11 @@ func (pc *parentController) syncRevisions(parent *unstructured.Unstructured, obs
 				pr.syncError = err
 				return
 			}
+			if syncResult == nil {
+				// No hook is enabled for this parent (e.g. only a finalize hook is defined).
+				pr.syncError = fmt.Errorf("sync hook nil//not defined")
+				return
+			}
 			pr.syncResult = syncResult
 			pr.desiredChildMap = commonv1.MakeRelativeObjectMap(parent, syncResult.Children)
 		}(pr)
